@@ -114,6 +114,9 @@ def hand_formulas(name):
         add("numeric", FAI("n", OR(NOT(COUNT("start", "<digit>", "n")), SMT(A("<=", A("str.to.int", V("n")), I(1))))))
         add("numeric-all-nonneg", FAI("n", SMT(A(">=", A("str.to.int", V("n")), I(0)))))
         add("start-quantified", FA("<start>", "s", EX("<stmt>", "t", SMT(A("=", A("str.len", V("t")), I(6))), inn="s")))
+        add("conj-exists-forall", AND(EX("<var>", "k", lit("k", "a")), FA("<digit>", "d", lit("d", "1"))))
+        add("conj-exists-forall", AND(EX("<assgn>", "x", lit("l", "b"), mexpr=M(MNT("<var>", "l"), MCH(" := "), MNT("<rhs>"))),
+                                      FA("<rhs>", "r", SMT(A("=", A("str.len", V("r")), I(1)))), FA("<digit>", "d", NOT(lit("d", "0")))))
         add("vacuous-body", FA("<digit>", "d", FALSE))
         add("vacuous-body", EX("<digit>", "d", TRUE))
         add("vacuous-body", FA("<digit>", "d", SMT(A("=", I(1), I(2)))))
